@@ -67,7 +67,14 @@ const REPLACEMENTS: [(&str, &str); 43] = [
 
 /// (program, label): destructuring iterations; the ill-typed ones use a tuple component as a value of
 /// another kind and must be rejected by the type checker, the well-typed ones must pass both stages.
-const DESTRUCTURING: [(&str, &str); 8] = [
+const DESTRUCTURING: [(&str, &str); 14] = [
+    // constraint names with an index: the index is part of a name, so it has to be a number, a string or a node
+    ("min x\ns.t.\n    cap_e: x >= 1 for e in edges(G)\nwhere\n    let G = Graph {\n        P -> [Q: 2],\n        Q\n    }\ndefine\n    x as Real(0, 5)\n", "constraint-name-indexed-by-edge"),
+    ("min x\ns.t.\n    cap_t: x >= 1 for t in enumerate(A)\nwhere\n    let A = [4, 5]\ndefine\n    x as Real(0, 5)\n", "constraint-name-indexed-by-tuple"),
+    ("min x\ns.t.\n    cap_row: x >= 1 for row in M\nwhere\n    let M = [[1, 2], [3, 4]]\ndefine\n    x as Real(0, 5)\n", "constraint-name-indexed-by-array-row"),
+    ("min x\ns.t.\n    cap_i: x >= i for i in 0..3\ndefine\n    x as Real(0, 5)\n", "constraint-name-indexed-by-number(well-typed)"),
+    ("min x\ns.t.\n    cap_n: x >= 1 for n in nodes(G)\nwhere\n    let G = Graph {\n        P -> [Q: 2],\n        Q\n    }\ndefine\n    x as Real(0, 5)\n", "constraint-name-indexed-by-node(well-typed)"),
+    ("min x\ns.t.\n    cap_i_s: x >= i for i in 0..2, s in [\"a\", \"b\"]\ndefine\n    x as Real(0, 5)\n", "constraint-name-indexed-by-number-and-string(well-typed)"),
     ("min sum((_, r) in enumerate(M), v in r) { v * x }\ns.t.\n    x >= 1\nwhere\n    let M = [[1, 2], [3, 4]]\ndefine\n    x as Real(0, 5)\n", "index-after-discard-used-as-row"),
     ("min sum((r, _) in enumerate(M), v in r) { v * x }\ns.t.\n    x >= 1\nwhere\n    let M = [[1, 2], [3, 4]]\ndefine\n    x as Real(0, 5)\n", "row-before-discard-used-as-row(well-typed)"),
     ("min x\ns.t.\n    x >= sum(e in neigh_edges_of(n, G)) { 1 } for (_, n) in enumerate([\"P\", \"Q\"])\nwhere\n    let G = Graph {\n        P -> [Q: 2],\n        Q\n    }\ndefine\n    x as Real(0, 5)\n", "index-after-discard-used-as-node-name"),
